@@ -6,7 +6,7 @@ PrintCase ==
   Violated => PrintT(ToJson([cid |-> case.cid, rec |-> RecRes.st,
                              shown |-> {<<pv[1], pv[2].t, pv[2].n, pv[2].s>> : pv \in Shown},
                              touched |-> RecRes.tc, evaluated |-> PyRes.ev,
-                             identcalls |-> Cardinality({pv \in RecRes.val : Expr[pv[1]].k = "ident"})]))
+                             identcalls |-> Cardinality({pv \in RecRes.val : pv[1] # 0 /\ Expr[pv[1]].k = "ident"})]))
 \* every case, violated or not: Python's verdict according to the specification (cross-checked against CPython)
 PrintPy == PrintT(ToJson([cid |-> case.cid, py |-> PyRes.st, truthy |-> IF PyRes.st = "ok" THEN Truthy(PyRes.v) ELSE FALSE,
                           v |-> <<PyRes.v.t, PyRes.v.n, PyRes.v.s>>, evaluated |-> PyRes.ev]))
